@@ -29,6 +29,15 @@ def load_frozen():
 
 
 class _Canon(ast.NodeTransformer):
+    def visit_UnaryOp(self, node):
+        self.generic_visit(node)
+        # -(a / b) -> -a / b ;  -(a * b) -> -a * b     (negation is exact, so it commutes with one product / quotient)
+        if isinstance(node.op, ast.USub) and isinstance(node.operand, ast.BinOp) and isinstance(node.operand.op, (ast.Div, ast.Mult)) \
+                and not (isinstance(node.operand.left, ast.UnaryOp) and isinstance(node.operand.left.op, ast.USub)):
+            b = node.operand
+            return ast.copy_location(ast.BinOp(ast.UnaryOp(ast.USub(), b.left), b.op, b.right), node)
+        return node
+
     def visit_Compare(self, node):
         self.generic_visit(node)
         # None is x  ->  x is None ;  0 == x  ->  x == 0      (identity / equality tests are symmetric)
@@ -39,6 +48,16 @@ class _Canon(ast.NodeTransformer):
     def visit_Call(self, node):
         self.generic_visit(node)
         # f(a, **{"k": v})  ->  f(a, k=v)      (literal string keys that are identifiers)
+        # f(a, **dict(k=v, ...))  ->  f(a, k=v, ...)
+        if any(k.arg is None and isinstance(k.value, ast.Call) and isinstance(k.value.func, ast.Name) and k.value.func.id == "dict" and not k.value.args
+               and all(kk.arg for kk in k.value.keywords) for k in node.keywords):
+            kws = []
+            for k in node.keywords:
+                if k.arg is None and isinstance(k.value, ast.Call) and isinstance(k.value.func, ast.Name) and k.value.func.id == "dict" and not k.value.args and all(kk.arg for kk in k.value.keywords):
+                    kws += list(k.value.keywords)
+                else:
+                    kws.append(k)
+            node.keywords = kws
         if any(k.arg is None and isinstance(k.value, ast.Dict) for k in node.keywords):
             kws = []
             for k in node.keywords:
@@ -1046,6 +1065,9 @@ def normalise(rel, tree, frozen, pure=frozenset(), sigs=None, multi=frozenset())
     if ren:
         info["renamed_functions"] = ren
     info["inlined_helpers"] = inline_new_helpers(tree, set(known), rel, multi)
+    if info["inlined_helpers"]:
+        _Canon().visit(tree)  # e.g. f(**helper(...)) became f(**dict(k=v, ...))
+        ast.fix_missing_locations(tree)
 
     def guided_pass(tag):
         ft_ = function_table(tree)
